@@ -53,6 +53,8 @@ pub fn texts_key(case: &Case, model: &Model) -> String {
     for (f, v) in model.live() {
         s.push_str(&format!("{f}#{:x};", vcore::fnv(case.text(&f, v).as_bytes())));
     }
+    // the dump probes every module name derivable from the universe's paths
+    s.push_str(&format!("probes={:?};", case.texts.keys().collect::<Vec<_>>()));
     s.push_str(&format!("cfg={}/{}", case.configs.first().map(|c| c.to_string()).unwrap_or_default(), case.configs.get(model.config).map(|c| c.to_string()).unwrap_or_default()));
     s
 }
